@@ -66,8 +66,11 @@ class Rely:
 
 
 class Extern:
-    def __init__(self, qual, result=None, pure=False, assume=(), note=''):
+    def __init__(self, qual, result=None, pure=False, assume=(), note='', requires=None, always=False, params=None):
         self.qual, self.result, self.pure, self.assume, self.note = qual, result, pure, list(assume), note
+        self.requires = _named(requires)     # proved at every call site (obligation kind call_pre)
+        self.always = always                 # treat as external even when the receiver's class is known/final
+        self.params = params or []           # parameter names (to evaluate `requires` over the actual arguments)
 
 
 def _named(x):
@@ -171,8 +174,8 @@ class Specs:
     def rely(self, cls, protect, before=None, after=None, note=''):
         self.relies[cls] = Rely(cls, protect, before, after, note)
 
-    def extern(self, qual, result=None, pure=False, assume=(), note=''):
-        self.externs[qual] = Extern(qual, result, pure, assume, note)
+    def extern(self, qual, result=None, pure=False, assume=(), note='', requires=None, always=False, params=None):
+        self.externs[qual] = Extern(qual, result, pure, assume, note, requires, always, params)
 
     def specfn(self, name, params, text):
         self.specfns[name] = (params, text)
@@ -278,6 +281,9 @@ class Specs:
     def call_policy(self, ex, recv, cls, name, info, fr):
         c = self.contracts.get(info.qualname)
         is_self = ex.task_self is not None and recv.t.eq(ex.task_self.t)
+        d = self.externs.get(info.qualname)
+        if d is not None and d.always and not is_self and ex.task_cls != info.cls:
+            return 'extern'
         if c is not None and c.modular and not (is_self and info.qualname in self.inline_always):
             return 'contract'
         if recv.ty.exact or cls in self.final or is_self or not ex.table.has_subclasses(cls):
@@ -317,6 +323,19 @@ class Specs:
     def eval_value(self, ex, text, st, fr, extra=None):
         ps = self._pure_state(st, extra)
         return ex.ev1(self.parse(text), ps, fr)
+
+    def assign_ghost(self, ex, name, text, st, fr):
+        """ghost assignment: to a ghost local (plain name) or to a ghost field ('self._g_x')"""
+        v = self.eval_ghost(ex, text, st, fr)
+        if '.' in name:
+            objs, f = name.rsplit('.', 1)
+            o = self.eval_value(ex, objs, st, fr)
+            ty = ex.field_ty(o.ty.cls, f)
+            if ty is None:
+                raise Unsupported(f'ghost field {name} has no shape')
+            st.heap.store(o.t, f, ty, v)
+        else:
+            st.loc[name] = v
 
     def eval_ghost(self, ex, text, st, fr):
         """Evaluate a ghost assignment; array definitions it introduces go to the real path condition."""
@@ -379,11 +398,23 @@ class Specs:
             if not (d.kind == 'ref' and d.ty.cls == 'dict'):
                 raise Unsupported('dmap() of a non-dict')
             return MapV(d.ty.key, d.ty.val, st.heap.ddom(d.t), st.heap.darrs(d.t, d.ty.val))
+        if name == 'keys':
+            d = ex.ev1(a[0], st, fr)
+            if not (d.kind == 'ref' and d.ty.cls == 'dict'):
+                raise Unsupported('keys() of a non-dict')
+            return SeqV(d.ty.key, st.heap.dlen(d.t), [st.heap.dkeys(d.t)])
+        if name == 'key_pos':
+            # position of a key in the iteration order of a dict (meaningful for keys of the dict)
+            d = ex.ev1(a[0], st, fr)
+            k = coerce(ex.ev1(a[1], st, fr), d.ty.key)
+            return vint(sym.didx(st.heap.dkeys(d.t), st.heap.dlen(d.t), k.t))
         if name == 'alive':
             x = ex.ev1(a[0], st, fr)
             return vbool(st.heap.alive(x.t))
         if name == 'fresh':
             x = ex.ev1(a[0], st, fr)
+            if x.kind == 'none':
+                return vbool(False)
             return vbool(z3.And(x.t != NONE, z3.Not(st.old.heap.alive(x.t)), st.heap.alive(x.t)))
         if name == 'method':
             o = ex.ev1(a[0], st, fr)
@@ -521,6 +552,12 @@ class Specs:
             if isinstance(it, ast.Call) and isinstance(it.func, ast.Name) and it.func.id in ('refs', 'ints', 'reals'):
                 k = next(sym._counter)
                 guard = None
+                if it.func.id == 'refs' and sym.BOUND is not None and not it.args:
+                    parts = []
+                    for present, t in ex.bound_ref_pool(ps):
+                        body = inner(V(Ty('ref'), t), present)
+                        parts.append(body)
+                    return z3.And(*parts) if universal else z3.Or(*parts)
                 if it.func.id == 'refs':
                     r = z3.Const(f'q{k}', Ref)
                     cls = it.args[0].value if it.args else None
@@ -545,7 +582,18 @@ class Specs:
             if isinstance(src, V) and src.kind == 'ref' and src.ty.cls == 'list':
                 src = SeqV(src.ty.elem, ps.heap.llen(src.t), ps.heap.larrs(src.t, src.ty.elem))
             if isinstance(src, V) and src.kind == 'ref' and src.ty.cls == 'dict':
+                ex.note_dict(src)
+                dref = src.t
                 src = MapV(src.ty.key, src.ty.val, ps.heap.ddom(src.t), ps.heap.darrs(src.t, src.ty.val))
+                if sym.BOUND is not None:
+                    # bounded refutation: enumerate the keys through the iteration order
+                    sym.SIDE.extend(sym.dict_wf(ps.heap, dref))
+                    keys, n = ps.heap.dkeys(dref), ps.heap.dlen(dref)
+                    parts = []
+                    for c in range(sym.BOUND):
+                        kv = V(src.kty, keys[c])
+                        parts.append(inner(vtuple([kv, src.at(keys[c])]) if what == 'items' else kv, n > c))
+                    return z3.And(*parts) if universal else z3.Or(*parts)
             if isinstance(src, SeqV):
                 return qint(z3.IntVal(0), src.n, lambda i: inner(src.at(i)))
             if isinstance(src, MapV):
